@@ -164,7 +164,11 @@ struct Data {
 impl Data {
     fn announce(&mut self, e: Entry) -> bool {
         match e {
-            Entry::Aspa { customer, providers } => self.aspa.insert(customer, providers).is_none(),
+            Entry::Aspa { customer, providers } => {
+                let same = self.aspa.get(&customer) == Some(&providers);
+                self.aspa.insert(customer, providers);
+                !same
+            }
             other => self.plain.insert(other),
         }
     }
@@ -211,8 +215,9 @@ fn timing_of(set: u8) -> (u32, u32, u32) { if set % 2 == 0 { T_EVEN } else { T_O
 #[derive(Clone, Copy, Debug, PartialEq, Eq, Hash, PartialOrd, Ord)]
 enum Style { Net, Chained }
 
-/// Longest retained diff chain.
-const CHAIN_CAP: usize = 2;
+/// Longest retained diff chain (quick 2, thorough 3; set once in main).
+static CHAIN_CAP: std::sync::atomic::AtomicUsize = std::sync::atomic::AtomicUsize::new(2);
+fn chain_cap() -> usize { CHAIN_CAP.load(Ordering::Relaxed) }
 const SESSION0: u16 = 0x04D2;
 const RESTART_SERIAL: u32 = 1000;
 
@@ -240,7 +245,7 @@ impl SrcInner {
     fn update(&mut self, set: u8, keep_diff: bool) {
         if keep_diff {
             self.chain.push(self.cur);
-            if self.chain.len() > CHAIN_CAP { self.chain.remove(0); }
+            if self.chain.len() > chain_cap() { self.chain.remove(0); }
         } else {
             self.chain.clear();
         }
@@ -400,6 +405,11 @@ struct Obs {
     s2c_bytes: u64,
     garbage: bool,
     server_updates: Vec<(u16, u32, bool)>,
+    /// fault injection: close the connection after this many PDUs of the
+    /// next response (counted from its Cache Response) have been forwarded
+    cut_after: Option<usize>,
+    cut_count: usize,
+    cut_fired: bool,
 }
 
 /// Server-side socket: the newtype that can implement the library's
@@ -540,16 +550,23 @@ async fn proxy(mut c: DuplexStream, mut s: DuplexStream, limit: u8, mode: ProxyM
                 loop {
                     match take_frame(&mut sbuf) {
                         Ok(Some(f)) => {
-                            let mut o = obs.lock().unwrap();
-                            let off = o.s2c_bytes;
-                            o.s2c.push(frame_of(&f, off, false));
-                            o.s2c_bytes += f.len() as u64;
+                            let fire = {
+                                let mut o = obs.lock().unwrap();
+                                let off = o.s2c_bytes;
+                                o.s2c.push(frame_of(&f, off, false));
+                                o.s2c_bytes += f.len() as u64;
+                                match o.cut_after {
+                                    Some(k) if f[1] == 3 || o.cut_count > 0 => { o.cut_count += 1; o.cut_count >= k }
+                                    _ => false,
+                                }
+                            };
+                            if c.write_all(&f).await.is_err() { break 'outer }
+                            if fire { obs.lock().unwrap().cut_fired = true; break 'outer }
                         }
                         Ok(None) => break,
                         Err(()) => { obs.lock().unwrap().garbage = true; break 'outer }
                     }
                 }
-                if c.write_all(&b2[..n]).await.is_err() { break 'outer }
             }
         }
     }
@@ -627,6 +644,10 @@ enum Ev {
     Notify,
     /// the client performs one `Client::step`
     Step,
+    /// the client performs one `Client::step` during which the connection
+    /// dies after k PDUs of the response (Cache Response included) reached
+    /// the client; if the response is complete by then, it dies right after
+    StepCut(u8),
 }
 
 impl Ev {
@@ -634,7 +655,7 @@ impl Ev {
         match self {
             Ev::Update(s) => format!("U{s}"), Ev::UpdateNoDiff(s) => format!("X{s}"),
             Ev::DropDiffs => "D".into(), Ev::Restart => "R".into(), Ev::Wrap => "W".into(),
-            Ev::Notify => "N".into(), Ev::Step => "S".into(),
+            Ev::Notify => "N".into(), Ev::Step => "S".into(), Ev::StepCut(k) => format!("C{k}"),
         }
     }
     fn parse(s: &str) -> Option<Ev> {
@@ -644,6 +665,7 @@ impl Ev {
             "N" => Some(Ev::Notify), "S" => Some(Ev::Step),
             _ if s.starts_with('U') => set(&s[1..]).map(Ev::Update),
             _ if s.starts_with('X') => set(&s[1..]).map(Ev::UpdateNoDiff),
+            _ if s.starts_with('C') => s[1..].parse::<u8>().ok().filter(|k| (1..=9).contains(k)).map(Ev::StepCut),
             _ => None,
         }
     }
@@ -657,7 +679,10 @@ fn witness(cfg: &Cfg, h: &[Ev]) -> String { format!("{} hist={}", cfg.render(), 
 
 /// At most this many Serial Notify PDUs may sit unread in the pipe (a third
 /// one cannot change what the next client step does: two already make it fail).
-const MAX_PENDING_NOTIFY: usize = 2;
+static MAX_PENDING_NOTIFY: std::sync::atomic::AtomicUsize = std::sync::atomic::AtomicUsize::new(2);
+
+/// Where the connection may die inside a response (PDUs delivered).
+const CUTS: [u8; 3] = [1, 2, 3];
 
 /// The facts of a state that decide which events are enabled.
 #[derive(Clone, Debug, PartialEq, Eq)]
@@ -670,8 +695,9 @@ fn enabled(abs: &Abs, with_nodiff_updates: bool) -> Vec<Ev> {
     if abs.chain_len > 0 { v.push(Ev::DropDiffs) }
     v.push(Ev::Restart);
     if abs.epoch == 0 { v.push(Ev::Wrap) }
-    if abs.pending < MAX_PENDING_NOTIFY { v.push(Ev::Notify) }
+    if abs.pending < MAX_PENDING_NOTIFY.load(Ordering::Relaxed) { v.push(Ev::Notify) }
     v.push(Ev::Step);
+    for k in CUTS { v.push(Ev::StepCut(k)) }
     v
 }
 
@@ -717,7 +743,7 @@ enum ConnK {
 ///   retained entries can never be asked for again, since the client's state
 ///   only ever moves to the source's current state; for the same reason the
 ///   retained depth itself is irrelevant: a client k behind falls out of
-///   range after CHAIN_CAP-k further updates whatever the depth), and on
+///   range after cap-k further updates whatever the depth), and on
 ///   `epoch` (where the serial stands relative to the 2^32 wrap; this is
 ///   the "serial class": the absolute session id and serial are otherwise
 ///   opaque tokens to client, server and source — they are compared for
@@ -743,6 +769,21 @@ struct Key {
     conn: ConnK,
     pending: Vec<u8>,
 }
+
+/// A key together with its precomputed hash (computed on the worker
+/// threads); equality is still decided on the full key.
+#[derive(Clone, Debug, PartialEq, Eq)]
+struct HKey { h: u64, key: Key }
+impl Hash for HKey { fn hash<H: Hasher>(&self, state: &mut H) { state.write_u64(self.h) } }
+
+#[derive(Default, Clone)]
+struct PassHasher(u64);
+impl Hasher for PassHasher {
+    fn finish(&self) -> u64 { self.0 }
+    fn write(&mut self, bytes: &[u8]) { for b in bytes { self.0 = (self.0 << 8) | *b as u64 } }
+    fn write_u64(&mut self, v: u64) { self.0 = v }
+}
+type Seen = HashSet<HKey, std::hash::BuildHasherDefault<PassHasher>>;
 
 fn hash_key(k: &Key) -> u64 {
     // FNV over the Debug rendering: stable across runs and platforms.
@@ -779,6 +820,9 @@ struct StepObs {
 #[derive(Clone, Debug, PartialEq, Eq)]
 struct Exec {
     key: Key,
+    key_hash: u64,
+    /// outcome class and transcript line of the last event if it was a step
+    label: Option<(String, String)>,
     key_before_last: Option<u64>,
     abs: Abs,
     steps: Vec<StepObs>,
@@ -917,8 +961,12 @@ async fn exec_async(cfg: Cfg, hist: Vec<Ev>) -> Exec {
             Ev::Restart => src.0.lock().unwrap().restart(),
             Ev::Wrap => src.0.lock().unwrap().wrap(),
             Ev::Notify => { notify.notify(); settle().await; }
-            Ev::Step => {
-                let (m_s2c, m_c2s) = { let o = conn.obs.lock().unwrap(); (o.s2c.len(), o.c2s.len()) };
+            Ev::Step | Ev::StepCut(_) => {
+                let (m_s2c, m_c2s) = {
+                    let mut o = conn.obs.lock().unwrap();
+                    if let Ev::StepCut(k) = *ev { o.cut_after = Some(k as usize); o.cut_count = 0; }
+                    (o.s2c.len(), o.c2s.len())
+                };
                 let consumed_before = conn.consumed.load(Ordering::Relaxed);
                 let state_before = conn.client.state().map(|s| (s.session(), s.serial().0));
                 let data_before = conn.client.target().data.clone();
@@ -996,14 +1044,17 @@ async fn exec_async(cfg: Cfg, hist: Vec<Ev>) -> Exec {
                     }
                 }
                 let changed = state_after != state_before || data_after != data_before;
-                let ok = result == StepResult::Ok;
+                let cut_fired = { let mut o = conn.obs.lock().unwrap(); o.cut_after = None; o.cut_fired };
+                let ok = result == StepResult::Ok && !cut_fired;
+                let class = if cut_fired { format!("{class}+connection-cut") } else { class };
                 steps.push(StepObs { result, transcript, class, eod, state_after, data_after, reported_timing, sim_ms,
                     changed, verdicts, negotiated, downgraded });
                 if ok {
                     conn.ok_steps += 1;
                 } else {
-                    // the connection is dead: reconnect with the client's
-                    // state and target, as Client::new's documentation says
+                    // the connection is dead (failed step, or the peer closed
+                    // it): reconnect with the client's state and target, as
+                    // Client::new's documentation says
                     let st = conn.client.state();
                     let Conn { client, .. } = conn;
                     let target = client.into_target();
@@ -1016,8 +1067,17 @@ async fn exec_async(cfg: Cfg, hist: Vec<Ev>) -> Exec {
     let (key, abs, m) = compute_key(&cfg, &src, &conn);
     machinery.extend(m);
     let odd_ops = (conn.client.target().odd_withdraw, conn.client.target().odd_announce);
-    let last_is_step = hist.last() == Some(&Ev::Step);
-    Exec { key, key_before_last, abs, steps, last_is_step, panics: Vec::new(), machinery, odd_ops }
+    let last_is_step = matches!(hist.last(), Some(Ev::Step | Ev::StepCut(_)));
+    let label = steps.last().filter(|_| last_is_step).map(|s| {
+        let (class, res) = match &s.result {
+            StepResult::Ok => (format!("step:ok:{}{}", if s.downgraded { "downgrade+" } else { "" }, s.class), "ok".to_string()),
+            StepResult::Err(m) => (format!("step:err:{}", rpki_verif::trunc(m, 60)), format!("err({m})")),
+            StepResult::Hang => ("step:hang(horizon exceeded)".to_string(), "hang".to_string()),
+        };
+        (class, format!("{res}: {}", s.transcript))
+    });
+    let key_hash = hash_key(&key);
+    Exec { key, key_hash, label, key_before_last, abs, steps, last_is_step, panics: Vec::new(), machinery, odd_ops }
 }
 
 /// Runs one history on fresh objects. A panic anywhere (client step, server
@@ -1045,8 +1105,52 @@ fn exec(cfg: &Cfg, hist: &[Ev]) -> Result<Exec, Vec<String>> {
 
 struct Node { cfg: Cfg, hist: Vec<Ev>, abs: Abs, key_hash: u64 }
 
+/// What the sequential merge needs from one executed transition (built on
+/// the worker thread so that the big `Exec` is dropped there).
+struct Slim {
+    /// `None` if the state was already known from an earlier level
+    key: Option<HKey>,
+    abs: Abs,
+    panics: Vec<String>,
+    machinery: Vec<String>,
+    prefix_ok: bool,
+    step: Option<SlimStep>,
+    odd_ops: (u64, u64),
+}
+
+struct SlimStep {
+    class: String,
+    line: String,
+    ok: bool,
+    downgraded: bool,
+    negotiated: Option<u8>,
+    changed: bool,
+    sim_ms: u64,
+    verdicts: Vec<(&'static str, String)>,
+    sample: String,
+}
+
+fn run_transition(cfg: &Cfg, hist: &[Ev], parent_hash: u64, seen: &Seen) -> Slim {
+    match exec(cfg, hist) {
+        Err(p) => Slim { key: None, abs: Abs { cur: 0, chain_len: 0, epoch: 0, pending: 0 }, panics: p, machinery: vec![],
+            prefix_ok: true, step: None, odd_ops: (0, 0) },
+        Ok(mut e) => {
+            let step = if e.last_is_step {
+                let (class, line) = e.label.take().unwrap();
+                let s = e.steps.pop().unwrap();
+                Some(SlimStep { class, line, ok: s.result == StepResult::Ok, downgraded: s.downgraded, negotiated: s.negotiated,
+                    changed: s.changed, sim_ms: s.sim_ms, verdicts: s.verdicts,
+                    sample: format!("{} ; data {}", s.transcript, s.data_after.render()) })
+            } else { None };
+            let hk = HKey { h: e.key_hash, key: e.key };
+            let key = if seen.contains(&hk) { None } else { Some(hk) };
+            Slim { key, abs: e.abs, panics: vec![], machinery: e.machinery, prefix_ok: e.key_before_last == Some(parent_hash),
+                step, odd_ops: e.odd_ops }
+        }
+    }
+}
+
 struct Stats {
-    states: u64,
     transitions: u64,
     executions: u64,
     nontrivial: u64,
@@ -1061,6 +1165,10 @@ struct Stats {
     odd_announces: u64,
 }
 
+fn bump(m: &mut BTreeMap<String, u64>, k: &str) {
+    match m.get_mut(k) { Some(c) => *c += 1, None => { m.insert(k.to_string(), 1); } }
+}
+
 fn pair_name(c: &Cfg) -> String {
     format!("civ{}-limit{}-{}", c.civ, c.limit, match c.mode { ProxyMode::ErrorReply => "error", ProxyMode::AnswerLower => "lower" })
 }
@@ -1073,29 +1181,35 @@ fn main() {
     ctx.assume("a connection is not used again after a step returned Err (Client::run stops there); the harness reconnects with client.state() and the target, as the Client::new documentation prescribes");
     ctx.assume("the version-limited peer is played by a proxy in front of the real server: it answers a too-high first query with Error Report code 4 in its own version (mode error) or answers in its own lower version (mode lower)");
 
+    let thorough = ctx.tier.is_thorough();
+    CHAIN_CAP.store(ctx.tier.pick(2, 3), Ordering::Relaxed);
+    MAX_PENDING_NOTIFY.store(ctx.tier.pick(2, 3), Ordering::Relaxed);
+
     // ---- replay of a single recorded case ----
-    if let Some((oracle, wit)) = ctx.replay.clone() {
+    if let Some((_oracle, wit)) = ctx.replay.clone() {
         match Cfg::parse(&wit) {
             None => ctx.machinery_error(format!("cannot parse replay witness {wit}")),
             Some((cfg, hist)) => match exec(&cfg, &hist) {
                 Err(p) => ctx.fail("C06.step.no_panic", witness(&cfg, &hist), p.join(" | ")),
                 Ok(e) => {
                     for m in &e.machinery { ctx.machinery_error(m.clone()) }
+                    for (i, s) in e.steps.iter().enumerate() {
+                        println!("replay: step #{i} {:?} [{}] {} -> state {:?} data {}", s.result, s.class, s.transcript, s.state_after, s.data_after.render());
+                    }
                     if let Some(s) = e.steps.last().filter(|_| e.last_is_step) {
-                        println!("replay: last step {:?} [{}] {}", s.result, s.class, s.transcript);
                         for (o, d) in &s.verdicts { ctx.fail(o, witness(&cfg, &hist), d.clone()) }
                     }
-                    let _ = oracle;
                 }
             },
         }
         ctx.finish();
     }
 
-    let thorough = ctx.tier.is_thorough();
-    let depth_bound: usize = std::env::var("C06_DEPTH").ok().and_then(|s| s.parse().ok())
-        .unwrap_or(ctx.tier.pick(4, 6));
-    let wall_cap = Duration::from_secs(ctx.tier.pick(33, 540));
+    // The depth bound is far beyond the depth at which the frontier empties
+    // (13 / 14 measured): both tiers run to the fixpoint; the wall-clock cap
+    // is a safety net that turns the run into a non-exhaustive one.
+    let depth_bound: usize = std::env::var("C06_DEPTH").ok().and_then(|s| s.parse().ok()).unwrap_or(40);
+    let wall_cap = Duration::from_secs(ctx.tier.pick(34, 560));
     let with_nodiff_updates = true;
 
     // ---- configurations ----
@@ -1109,13 +1223,13 @@ fn main() {
     }}}
 
     let sp = ctx.space("rtr.histories",
-        "breadth-first over event histories {update(S), update_nodiff(S) for the 7 other sets of an 8-set family, drop_diffs, restart, wrap, notify, client_step} from every root (7 initial client states x client initial version 0..2 x proxy limit 0..2 [+ answer-lower proxy where civ > limit] x diff style), states de-duplicated by canonical key, every transition re-executed on the real Client and Server; non-trivial = transitions whose client step completed (Ok) AND changed the client's state or data (each (state, event) pair is executed once, so they are distinct by construction)");
+        "breadth-first over event histories {update(S), update_nodiff(S) for the 7 other sets of an 8-set family, drop_diffs, restart, wrap, notify, client_step, client_step with the connection dying after 1/2/3 response PDUs} from every root (7 initial client states x client initial version 0..2 x proxy limit 0..2 [+ answer-lower proxy where civ > limit] x diff style), states de-duplicated by canonical key, every transition re-executed on the real Client and Server; non-trivial = transitions whose client step completed (Ok) AND changed the client's state or data (each (state, event) pair is executed once, so they are distinct by construction)");
 
     let start = WallInstant::now();
-    let mut st = Stats { states: 0, transitions: 0, executions: 0, nontrivial: 0, outcomes: BTreeMap::new(),
+    let mut st = Stats { transitions: 0, executions: 0, nontrivial: 0, outcomes: BTreeMap::new(),
         transcripts: BTreeSet::new(), ok_by_pair: BTreeMap::new(), downgrade_ok_by_pair: BTreeMap::new(),
         negotiated: BTreeMap::new(), violating_transitions: 0, max_sim_ms: 0, odd_withdraws: 0, odd_announces: 0 };
-    let mut seen: HashSet<Key> = HashSet::new();
+    let mut seen: Seen = Seen::default();
     let mut frontier: Vec<Node> = Vec::new();
 
     // depth 0: the roots
@@ -1126,8 +1240,8 @@ fn main() {
             Err(p) => ctx.machinery_error(format!("root {} panicked: {}", cfg.render(), p.join(" | "))),
             Ok(e) => {
                 for m in &e.machinery { ctx.machinery_error(format!("{}: {m}", cfg.render())) }
-                let h = hash_key(&e.key);
-                if seen.insert(e.key) { frontier.push(Node { cfg, hist: vec![], abs: e.abs, key_hash: h }); }
+                let h = e.key_hash;
+                if seen.insert(HKey { h, key: e.key }) { frontier.push(Node { cfg, hist: vec![], abs: e.abs, key_hash: h }); }
             }
         }
     }
@@ -1143,79 +1257,76 @@ fn main() {
 
     for depth in 1..=depth_bound {
         if frontier.is_empty() { exhausted = true; break }
-        // a level is only started if the previous one leaves room for it
+        let tasks: Vec<(usize, Ev)> = frontier.iter().enumerate()
+            .flat_map(|(i, n)| enabled(&n.abs, with_nodiff_updates).into_iter().map(move |e| (i, e))).collect();
+        // a level is only started if the time used so far leaves room for it
+        // (safety net; deeper levels replay longer histories, hence the factor)
         if depth > 1 {
             let per = start.elapsed().as_secs_f64() / (st.executions.max(1) as f64);
-            let planned: usize = frontier.iter().map(|n| enabled(&n.abs, with_nodiff_updates).len()).sum();
-            let est = per * planned as f64 * (1.0 + depth as f64 / (depth as f64 - 0.5)) / 2.0 * 1.15;
+            let est = per * tasks.len() as f64 * 1.3;
             if start.elapsed().as_secs_f64() + est > wall_cap.as_secs_f64() {
                 cut = "wall-clock budget (level not started)";
                 break;
             }
         }
-        let tasks: Vec<(usize, Ev)> = frontier.iter().enumerate()
-            .flat_map(|(i, n)| enabled(&n.abs, with_nodiff_updates).into_iter().map(move |e| (i, e))).collect();
-        let results: Vec<Result<Exec, Vec<String>>> = tasks.par_iter().map(|(i, ev)| {
+        let results: Vec<Slim> = tasks.par_iter().map(|(i, ev)| {
             let n = &frontier[*i];
-            let mut h = n.hist.clone(); h.push(*ev);
-            exec(&n.cfg, &h)
+            let mut h = Vec::with_capacity(n.hist.len() + 1);
+            h.extend_from_slice(&n.hist); h.push(*ev);
+            run_transition(&n.cfg, &h, n.key_hash, &seen)
         }).collect();
 
         let mut next: Vec<Node> = Vec::new();
         for ((i, ev), r) in tasks.iter().zip(results) {
             let n = &frontier[*i];
-            let mut h = n.hist.clone(); h.push(*ev);
+            let hist = || { let mut h = n.hist.clone(); h.push(*ev); h };
             st.executions += 1; st.transitions += 1;
             let ev_class = match ev { Ev::Update(_) => "event:update", Ev::UpdateNoDiff(_) => "event:update_nodiff", Ev::DropDiffs => "event:drop_diffs",
-                Ev::Restart => "event:restart", Ev::Wrap => "event:wrap", Ev::Notify => "event:notify", Ev::Step => "event:client_step" };
-            *st.outcomes.entry(ev_class.to_string()).or_insert(0) += 1;
-            let e = match r {
-                Err(p) => {
-                    *st.outcomes.entry("step:panic".into()).or_insert(0) += 1;
-                    st.violating_transitions += 1;
-                    ctx.fail("C06.step.no_panic", witness(&n.cfg, &h), p.join(" | "));
-                    continue;
-                }
-                Ok(e) => e,
-            };
-            for m in &e.machinery { ctx.machinery_error(format!("{}: {m}", witness(&n.cfg, &h))) }
-            if e.key_before_last != Some(n.key_hash) {
-                ctx.machinery_error(format!("replay diverged: prefix of {} does not reach the recorded state", witness(&n.cfg, &h)));
+                Ev::Restart => "event:restart", Ev::Wrap => "event:wrap", Ev::Notify => "event:notify", Ev::Step => "event:client_step",
+                Ev::StepCut(_) => "event:client_step_with_connection_cut" };
+            bump(&mut st.outcomes, ev_class);
+            if !r.panics.is_empty() {
+                bump(&mut st.outcomes, "step:panic");
+                st.violating_transitions += 1;
+                ctx.fail("C06.step.no_panic", witness(&n.cfg, &hist()), r.panics.join(" | "));
+                continue;
+            }
+            for m in &r.machinery { ctx.machinery_error(format!("{}: {m}", witness(&n.cfg, &hist()))) }
+            if !r.prefix_ok {
+                ctx.machinery_error(format!("replay diverged: prefix of {} does not reach the recorded state", witness(&n.cfg, &hist())));
             }
             let mut violated = false;
-            if e.last_is_step {
-                let s = e.steps.last().unwrap();
+            if let Some(s) = &r.step {
                 st.max_sim_ms = st.max_sim_ms.max(s.sim_ms);
-                let pair = pair_name(&n.cfg);
-                match &s.result {
-                    StepResult::Ok => {
-                        *st.outcomes.entry(format!("step:ok:{}{}", if s.downgraded { "downgrade+" } else { "" }, s.class)).or_insert(0) += 1;
-                        *st.ok_by_pair.entry(pair.clone()).or_insert(0) += 1;
-                        if s.downgraded { *st.downgrade_ok_by_pair.entry(pair).or_insert(0) += 1; }
-                        if let Some(v) = s.negotiated { *st.negotiated.entry(format!("v{v}")).or_insert(0) += 1; }
-                        if s.changed { st.nontrivial += 1 }
-                        if st.nontrivial <= 3 && s.changed {
-                            sp.sample_str(|| format!("{} => {} ; data {}", witness(&n.cfg, &h), s.transcript, s.data_after.render()));
-                        }
-                        if first_step_node.is_none() && s.changed && h.len() >= 3 { first_step_node = Some((n.cfg, h.clone())) }
+                bump(&mut st.outcomes, &s.class);
+                if !st.transcripts.contains(s.line.as_str()) { st.transcripts.insert(s.line.clone()); }
+                if s.ok {
+                    let pair = pair_name(&n.cfg);
+                    bump(&mut st.ok_by_pair, &pair);
+                    if s.downgraded { bump(&mut st.downgrade_ok_by_pair, &pair); }
+                    if let Some(v) = s.negotiated { bump(&mut st.negotiated, &format!("v{v}")); }
+                    if s.changed {
+                        st.nontrivial += 1;
+                        if st.nontrivial <= 3 { sp.sample_str(|| format!("{} => {}", witness(&n.cfg, &hist()), s.sample)); }
+                        if first_step_node.is_none() && n.hist.len() >= 2 { first_step_node = Some((n.cfg, hist())) }
                     }
-                    StepResult::Err(m) => { *st.outcomes.entry(format!("step:err:{}", rpki_verif::trunc(m, 60))).or_insert(0) += 1; }
-                    StepResult::Hang => { *st.outcomes.entry("step:hang(horizon exceeded)".into()).or_insert(0) += 1; }
                 }
-                st.transcripts.insert(format!("{:?} {}", match &s.result { StepResult::Ok => "ok".to_string(), StepResult::Err(m) => format!("err({m})"), StepResult::Hang => "hang".into() }, s.transcript));
                 for (o, d) in &s.verdicts {
                     violated = true;
-                    ctx.fail(o, witness(&n.cfg, &h), d.clone());
+                    ctx.fail(o, witness(&n.cfg, &hist()), d.clone());
                 }
             }
             if violated { st.violating_transitions += 1; continue }   // a violating state is not expanded
-            st.odd_withdraws = st.odd_withdraws.max(e.odd_ops.0);
-            st.odd_announces = st.odd_announces.max(e.odd_ops.1);
-            let kh = hash_key(&e.key);
-            if seen.insert(e.key) {
-                max_depth = depth;
-                last_new_node = Some((n.cfg, h.clone()));
-                next.push(Node { cfg: n.cfg, hist: h, abs: e.abs, key_hash: kh });
+            st.odd_withdraws = st.odd_withdraws.max(r.odd_ops.0);
+            st.odd_announces = st.odd_announces.max(r.odd_ops.1);
+            if let Some(hk) = r.key {
+                let kh = hk.h;
+                if seen.insert(hk) {
+                    max_depth = depth;
+                    let h = hist();
+                    last_new_node = Some((n.cfg, h.clone()));
+                    next.push(Node { cfg: n.cfg, hist: h, abs: r.abs, key_hash: kh });
+                }
             }
         }
         level_sizes.push((depth, tasks.len(), next.len()));
@@ -1223,7 +1334,7 @@ fn main() {
         frontier = next;
         if frontier.is_empty() { exhausted = true; break }
     }
-    st.states = seen.len() as u64;
+    let n_states = seen.len() as u64;
 
     // ---- replay-determinism self check: two histories, each executed twice more ----
     let mut det_checked = 0;
@@ -1257,7 +1368,7 @@ fn main() {
     // ---- evidence ----
     sp.evals(st.executions);
     sp.nontrivial(st.nontrivial);
-    sp.states(st.states);
+    sp.states(n_states);
     sp.transitions(st.transitions);
     sp.traces(st.transitions);
     for (k, v) in &st.outcomes { sp.outcomes_n(k, *v) }
@@ -1270,8 +1381,8 @@ fn main() {
     sp.set("roots", json!(roots.len()));
     sp.set("version_configs", json!(vconfigs.iter().map(|(c, l, m)| format!("{c}/{l}/{m:?}")).collect::<Vec<_>>()));
     sp.set("diff_styles", json!(styles.iter().map(|s| format!("{s:?}")).collect::<Vec<_>>()));
-    sp.set("events", json!(["U<S> update (diff retained)", "X<S> update (diff history dropped)", "D drop diffs", "R restart (new session)", "W serial := 2^32-1", "N notify", "S client step"]));
-    sp.set("bounds", json!({"retained_diff_chain": CHAIN_CAP, "pending_notifies": MAX_PENDING_NOTIFY, "simulated_horizon_s": HORIZON.as_secs()}));
+    sp.set("events", json!(["U<S> update (diff retained)", "X<S> update (diff history dropped)", "D drop diffs", "R restart (new session)", "W serial := 2^32-1", "N notify", "S client step", "C<k> client step, connection dies after k PDUs of the response"]));
+    sp.set("bounds", json!({"retained_diff_chain": chain_cap(), "pending_notifies": MAX_PENDING_NOTIFY.load(Ordering::Relaxed), "simulated_horizon_s": HORIZON.as_secs()}));
     sp.set("distinct_outcomes(step transcripts)", json!(st.transcripts.len()));
     sp.set("ok_steps_by_version_config", json!(st.ok_by_pair));
     sp.set("ok_steps_with_downgrade", json!(st.downgrade_ok_by_pair));
@@ -1279,14 +1390,15 @@ fn main() {
     sp.set("violating_transitions_not_expanded", json!(st.violating_transitions));
     sp.set("max_simulated_ms_in_one_step", json!(st.max_sim_ms));
     sp.set("replay_determinism", json!({"histories_replayed_twice": det_checked, "identical": det_ok, "prefix_checks": st.transitions}));
-    sp.set("updates_with_withdraw_of_absent_or_announce_of_present(max per history)", json!([st.odd_withdraws, st.odd_announces]));
-    sp.set("transcript_samples", json!(st.transcripts.iter().take(12).collect::<Vec<_>>()));
+    sp.set("updates_with_withdraw_of_absent_or_reannounce_of_identical(max per history)", json!([st.odd_withdraws, st.odd_announces]));
+    sp.set("transcript_samples", json!(st.transcripts.iter().filter(|t| t.starts_with("ok")).step_by((st.transcripts.len() / 12).max(1)).take(12).collect::<Vec<_>>()));
     let complete = exhausted || completed_depth == depth_bound;
-    sp.done(complete, &if exhausted { format!("fixpoint reached at depth {completed_depth}: all reachable canonical states expanded") }
-        else { format!("all histories up to depth {completed_depth} from every root (bound asked: {depth_bound})") });
+    sp.done(complete, &if exhausted { format!("fixpoint at depth {completed_depth}: every reachable canonical state expanded with every enabled event") }
+        else if complete { format!("all histories up to depth {completed_depth} from every root") }
+        else { format!("all histories up to depth {completed_depth} from every root; stopped by {cut}") });
 
     println!("C06: states={} transitions={} max_depth={} frontier={} ok_steps={} nontrivial={} distinct_transcripts={} wall={:.1}s",
-        st.states, st.transitions, max_depth, if exhausted { "exhausted" } else { "cut" }, total_ok, st.nontrivial, st.transcripts.len(),
+        n_states, st.transitions, max_depth, if exhausted { "exhausted" } else { "cut" }, total_ok, st.nontrivial, st.transcripts.len(),
         start.elapsed().as_secs_f64());
     ctx.finish();
 }
